@@ -139,6 +139,9 @@ func usualTree(l *lvl, leaves []*Leaf) *Expr {
 		if o.group == nil {
 			lf := *leaves[o.leaf]
 			lf.Not = o.not
+			if o.not {
+				lf.Op, lf.Value, lf.Strict = "", nil, false
+			}
 			return &Expr{Kind: ELeaf, Leaf: &lf}
 		}
 		in := usualTree(o.group, leaves)
@@ -177,6 +180,9 @@ func compilerTree(l *lvl, leaves []*Leaf) *Expr {
 		if o.group == nil {
 			lf := *leaves[o.leaf]
 			lf.Not = o.not
+			if o.not {
+				lf.Op, lf.Value, lf.Strict = "", nil, false
+			}
 			return &Expr{Kind: ELeaf, Leaf: &lf}
 		}
 		in := compilerTree(o.group, leaves)
